@@ -14,7 +14,15 @@ import time
 from sim import env
 from sim.harness import Check, Violation
 
+from frappy.core import Readable
 from frappy.protocol.discovery import UDPListener
+
+
+class PlainSensor(Readable):
+    """the one module of the node in 'server' mode"""
+
+    def read_value(self):
+        return 1.0
 
 MAXLEN = 508
 
@@ -43,18 +51,24 @@ DATAGRAMS = [
 class C19(Check):
     ID = 'C19'
     TIERS = {'quick': {'runs': 40000, 'wall': 60}, 'thorough': {'runs': 1500000, 'wall': 700}}
-    RULE = ('case = equipment id + description (alphabet in {ascii, JSON escapes, multi-byte, mixed}, lengths around the '
+    RULE = ('[15 % of the cases start the responder through the real Server.run with 1..3 tcp interfaces of which some are '
+            'held by another listener for 0.2 s .. for ever] case = equipment id + description (alphabet in {ascii, JSON escapes, multi-byte, mixed}, lengths around the '
             '508 byte budget) + interface list (tcp / ws entries) + datagram sequence from 1..3 peers (valid requests, '
             'other JSON values, invalid UTF-8, empty, oversized) with loss, duplication, reordering and truncation at '
             'the receive size; distinct = different (case digest, schedule digest); non-trivial = >= 3 datagrams of '
             'which >= 1 is not a discovery request, or a description within 120 bytes of the budget')
-    REAL = ['frappy.protocol.discovery.UDPListener (__init__ budgeting/truncation, _getMessage, run, shutdown)']
-    STUB = ['UDP socket (sim.net.UdpSocket)', 'get_version (constant)', 'clock']
+    REAL = ['frappy.protocol.discovery.UDPListener (__init__ budgeting/truncation, _getMessage, run, shutdown)',
+            'server mode (15 % of the cases): frappy.server.Server.run / _interfaceThread / shutdown, '
+            'frappy.protocol.interface.tcp.TCPServer (constructor with its bind retries) + TCPRequestHandler, Dispatcher']
+    STUB = ['UDP socket (sim.net.UdpSocket)', 'get_version (constant)', 'clock',
+            'server mode: socketserver.ThreadingTCPServer (sim.tcpserver: binds and accepts on the simulated network, a '
+            'port held by another listener gives EADDRINUSE)']
     ASSUMPTIONS = ['a datagram is a discovery request iff it decodes (UTF-8, JSON) to an object whose member "SECoP" is '
                    'the string "discover"; a request truncated by the receive size is judged by what arrived']
     PROBES = ('c19.description-truncated', 'c19.responder-disabled', 'c19.non-request', 'c19.invalid-utf8',
               'c19.non-object-json', 'net.udp-lost', 'net.udp-duplicated', 'net.udp-reordered', 'net.udp-truncated',
-              'c19.near-budget')
+              'c19.near-budget', 'c19.server-mode', 'c19.server-responder-started', 'fault.port-held-by-somebody-else',
+              'fault.bind-address-in-use')
 
     def gen_case(self, rng, tier):
         alpha = rng.choice(list(ALPHABETS))
@@ -79,9 +93,98 @@ class C19(Check):
         shape = {'p_switch': rng.choice([0.1, 0.5]), 'equipment_id': gen_text(rng, idn, ALPHABETS[ida]),
                  'description': gen_text(rng, n, ALPHABETS[alpha]), 'ifaces': ifaces,
                  'broadcast': rng.random() < 0.7}
+        if rng.random() < 0.15:
+            # the responder as the real Server.run starts it: interfaces are bound on the simulated network first
+            # (a port may be held by somebody else for a while or for ever), then the responder gets the list of
+            # the interfaces which came up
+            ports = rng.sample([10767, 2055, 4001, 65535], rng.choice([1, 2, 2, 3]))
+            shape['mode'] = 'server'
+            shape['broadcast'] = True      # Server.run starts the responder with its default
+            shape['ifaces'] = [f'tcp://{q}' for q in ports]
+            shape['occupied'] = {str(q): rng.choice([None, None, 0.2, 1.0, 3.0, 6.0])
+                                 for q in ports[1:] if rng.random() < 0.6}
+            if rng.random() < 0.1:
+                shape['occupied'][str(ports[0])] = rng.choice([0.2, 3.0])
+            if len(shape['equipment_id']) < 1:
+                shape['equipment_id'] = 'node'
         return {'shape': shape, 'ops': ops}
 
     def main(self, sim, case, ctx):
+        if case['shape'].get('mode') == 'server':
+            return self.main_server(sim, case, ctx)
+        return self.main_responder(sim, case, ctx)
+
+    def main_server(self, sim, case, ctx):
+        shape = case['shape']
+        sim.count('c19.server-mode')
+        world = ctx['world'] = env.World(sim)
+        net = world.net
+        for port, release in shape['occupied'].items():
+            lst = net.listen(int(port), lambda sock, addr: sock.close())
+            lst.owner = 'foreign'
+            sim.count('fault.port-held-by-somebody-else')
+            if release is not None:
+                def free(port=int(port), lst=lst):
+                    if net.listeners.get(port) is lst:
+                        del net.listeners[port]
+                sim.call_at(sim.now + release, free)
+        ifaces = shape['ifaces']
+        srv = world.make_server('n', {'m': {'cls': PlainSensor, 'description': 'sensor'}},
+                                node_cfg={'equipment_id': shape['equipment_id'], 'description': shape['description'],
+                                          'interface': ifaces[0], 'secondary': ifaces[1:]})
+        ctx['cleanup'] = [lambda: env.forget_classes(PlainSensor)]
+        ended = []
+
+        def run():
+            try:
+                srv.run()
+            except BaseException as e:   # noqa
+                ended.append(repr(e))
+                raise
+            ended.append(None)
+        th = threading.Thread(target=run, name='server-run')
+        th.start()
+        sim.wait_until(lambda: srv.discovery is not None or ended, 60, what='node start')
+        time.sleep(0.05)
+        ctx['run_ended_early'] = list(ended)
+        # the ports on which the node really accepts connections now
+        ctx['node_ports'] = sorted(q for q, l in net.listeners.items() if l.accept and getattr(l, 'owner', None) not in
+                                   (None, 'foreign'))
+        ctx['registered'] = sorted(srv.interfaces)
+        if srv.discovery is None:
+            ctx['no_responder'] = True
+            srv.shutdown()
+            th.join(30)
+            return
+        lst = ctx['listener'] = srv.discovery
+        sock = ctx['sock'] = net.udp_sockets[-1]
+        self.feed(sim, case, ctx, sock)
+        udp_tasks = [t for t in sim.tasks if t.name.endswith(':run') and 'discovery' in t.name]
+        ctx['alive'] = any(t.state != 'done' for t in udp_tasks) if udp_tasks else lst.running
+        ctx['enabled'] = lst.is_enabled
+        # every announced port answers with the identification of this node
+        ctx['idn'] = {}
+        for q in sorted({int(i.split('://')[1]) for i in ifaces}):
+            try:
+                c = world.net.create_connection(('simhost', q), timeout=2)
+                c.sendall(b'*IDN?\n')
+                c.settimeout(2)
+                buf = b''
+                while b'\n' not in buf:
+                    part = c.recv(200)
+                    if not part:
+                        break
+                    buf += part
+                ctx['idn'][q] = buf
+                c.close()
+            except OSError as e:
+                ctx['idn'][q] = repr(e)
+        srv.shutdown()
+        th.join(30)
+        ctx['ended'] = not th.is_alive()
+        ctx['task_exc'] = next((repr(t.exc) for t in udp_tasks if t.exc is not None), None)
+
+    def main_responder(self, sim, case, ctx):
         shape = case['shape']
         world = ctx['world'] = env.World(sim)
         log = world.logger('discovery')
@@ -96,6 +199,16 @@ class C19(Check):
         th = threading.Thread(target=lst.run, name='udp')
         th.start()
         time.sleep(0.01)
+        self.feed(sim, case, ctx, sock)
+        ctx['alive'] = th.is_alive()
+        ctx['enabled'] = lst.is_enabled
+        lst.shutdown()
+        th.join(5)
+        ctx['ended'] = not th.is_alive()
+        ctx['task_exc'] = next((repr(t.exc) for t in sim.tasks if t.name == 'udp' and t.exc is not None), None)
+
+    @staticmethod
+    def feed(sim, case, ctx, sock):
         delivered = ctx['delivered'] = []
         late = []
         for op in case['ops']:
@@ -126,12 +239,6 @@ class C19(Check):
         ctx['final_seq'] = sim.next_seq()
         sock.inject(b'{"SECoP": "discover"}', ('10.0.0.99', 49999))
         time.sleep(1.0)
-        ctx['alive'] = th.is_alive()
-        ctx['enabled'] = lst.is_enabled
-        lst.shutdown()
-        th.join(5)
-        ctx['ended'] = not th.is_alive()
-        ctx['task_exc'] = next((repr(t.exc) for t in sim.tasks if t.name == 'udp' and t.exc is not None), None)
 
     def observation(self, sim, case, ctx):
         s = ctx.get('sock')
@@ -164,8 +271,20 @@ class C19(Check):
             cnt[k] = cnt.get(k, 0) + 1
         if 'ctor_failed' in ctx:
             return [Violation('C19.constructor-raised', 'init', ctx['ctor_failed'])]
+        if shape.get('mode') == 'server':
+            if ctx.get('no_responder'):
+                # no interface came up (or the node failed to start): nothing is announced at all
+                if ctx.get('node_ports'):
+                    res.append(Violation('C19.no-responder', 'server', f'the node listens on {ctx["node_ports"]} but started '
+                                                                       f'no responder ({ctx.get("run_ended_early")})'))
+                return res
+            bump('c19.server-responder-started')
         sock = ctx['sock']
         ports = [int(i.split('://')[1]) for i in shape['ifaces'] if i.startswith('tcp')]
+        if shape.get('mode') == 'server':
+            # "a TCP port it really listens on": bound on the network by this node, and answering
+            ports = [q for q in ctx['node_ports'] if isinstance(ctx['idn'].get(q), bytes) and
+                     ctx['idn'][q].startswith(b'ISSE')]
         eid, desc = shape['equipment_id'], shape['description']
 
         def msg_len(d):
